@@ -11,7 +11,7 @@ from vf.ref import hashing
 
 ID = "C03"
 LEVEL = "exploration"
-TECHNIQUE = "Hypothesis-generated trees x piece lengths x two hybrid creators; v1 stream rebuilt from info.files/info.length and hashed by the BEP 3 reference, cross-checked against the file tree"
+TECHNIQUE = "Hypothesis-generated trees x piece lengths x two hybrid creators; v1 stream rebuilt from info.files/info.length and hashed by the BEP 3 reference, cross-checked against the file tree ; optional second act (one file rewritten in place, same process creates again)"
 RULE = ("Cases: generated tree (single file or directory) x piece length x creator in {TorrentFileHybrid, TorrentAssembler "
         "hybrid} x route. Oracle: non-pad entries of info.files = file-tree leaves in order with equal lengths and equal to the "
         "files on disk; every non-pad entry starts at a multiple of P in the v1 stream; pad entries are marked attr p; "
